@@ -15,6 +15,7 @@ import itertools
 import json
 import os
 import shutil
+import sys
 
 import core
 import session
@@ -263,6 +264,41 @@ def cli_part(chk):
         undefined = cli_config(d, ["Ba"])
         undefined["experiments"]["X"]["executions"] = [{"Undefined{e}": {"suites": ["S"]}}]
         expect("undefined executor", ["-D", "c.yaml"], 3, raw=undefined, no_start=True, msg_needed=True)
+        # braces in every name that can reach a message, with and without -v / -d: executor, suite, experiment, benchmark, data file
+        hp = "-S " + os.path.join(d, "harness.py")
+        with open(os.path.join(d, "notexec{n}.sh"), "w") as f:
+            f.write("#!/bin/sh\necho hi\n")
+        os.chmod(os.path.join(d, "notexec{n}.sh"), 0o644)
+
+        def braced(executor=None, suite_extra=None, data_file="d{x}.data"):
+            return {"default_data_file": data_file,
+                    "executors": {"E{e}": executor or {"executable": core.PY, "args": hp}},
+                    "benchmark_suites": {"S{s}": dict({"gauge_adapter": "RebenchLog", "command": "%(benchmark)s %(invocation)s",
+                                                       "benchmarks": [{"B{a}": {"extra_args": "{y}"}}]}, **(suite_extra or {}))},
+                    "experiments": {"X{q}": {"executions": [{"E{e}": {"suites": ["S{s}"]}}]}},
+                    "runs": {"invocations": 2, "retries_after_failure": 1}}
+
+        combos = [["-D"], ["-D", "-v", "-d"]] if chk.tier == "quick" else [["-D"], ["-D", "-v"], ["-D", "-d"], ["-D", "-v", "-d"]]
+        for flags in combos:
+            tag = " ".join(flags)
+
+            def bexpect(name, want_rc, raw, script, keep=False, **kw):
+                if not keep and os.path.exists(os.path.join(d, "d{x}.data")):
+                    os.remove(os.path.join(d, "d{x}.data"))
+                return expect("braces everywhere, %s: %s" % (tag, name), flags + ["c.yaml"], want_rc, raw=raw, script=script, **kw)
+
+            bexpect("all succeed", 0, braced(), {})
+            with open(os.path.join(d, "d{x}.data"), "a") as f:
+                f.write("garbage{q}\t{z}\t1\n1\tnot-a-number{w}\t2\t{u}\tms\ttotal\n")
+            bexpect("complete, unreadable lines with braces in the data file", 0, braced(), {}, keep=True, no_start=True)
+            bexpect("executable not marked executable", 1, braced(executor={"path": d, "executable": "notexec{n}.sh"}), {})
+            bexpect("failing executor build", 1, braced(executor={"executable": core.PY, "args": hp, "path": d, "build": ["echo '{b}'; exit 1"]}), {})
+            bexpect("failing suite build", 1, braced(suite_extra={"location": d, "build": ["echo '{b}' >&2; exit 3"]}), {})
+            bexpect("build in a directory that does not exist", 1,
+                    braced(suite_extra={"location": os.path.join(d, "no{dir}"), "build": ["true"]}), {})
+            bexpect("run fails", 1, braced(), {"default": {"rc": 2, "out": "{z} {0}\n"}})
+            bexpect("unparsable output", 1, braced(), {"default": {"rc": 0, "out": "{'a': 1}\n"}})
+            bexpect("data file that cannot be opened", 3, braced(data_file=os.path.join(d, "harness.py", "d{x}.data")), {}, msg_needed=True)
         chk.count("cli_sessions", nses)
     finally:
         shutil.rmtree(d, ignore_errors=True)
@@ -322,6 +358,19 @@ def format_part(chk):
                 break
         chk.case(("details", cmd, cwd, json.dumps(env)))
     chk.count("format_templates", n)
+    # every fragment of template text found in rebench/ (Gen/GenMessages.v, the list the theorem is about) through the real renderer
+    sys.path.insert(0, os.path.join(core.VERIF, "translator"))
+    import tr_messages
+    tr_messages.generate(core.REPO)
+    for t in sorted(set(tr_messages.LITERALS)):
+        try:
+            r = [0, [ord(c) for c in hf_format(t, ind=rui._DETAIL_INDENT)]]
+        except (KeyError, IndexError, ValueError, AttributeError, TypeError) as exc:
+            chk.violation("C10 every fragment of message text in the source is a template the renderer accepts", dict(text=t), "renders", repr(exc))
+            r = [1]
+        exprs.append("L [sx_fres (py_format detail_indent %s); sx_str (escape_braces %s)]" % (core.coq_str(t), core.coq_str(t)))
+        obs.append((dict(text=t), r, [ord(c) for c in rui.escape_braces(t)]))
+    chk.count("message_literals", len(set(tr_messages.LITERALS)))
     return exprs, obs
 
 
